@@ -132,6 +132,7 @@ pub fn scenario(u: &mut Unstructured, role: Role) -> Scenario {
         after: if u.ratio(1, 5).unwrap_or(false) { After::Silent } else { After::Honest },
         gap_ack: u.arbitrary().unwrap_or(true),
         dally: u.arbitrary().unwrap_or(true),
+        pre_existing: role == Role::Receiver && u.ratio(1, 4).unwrap_or(false),
     }
 }
 
